@@ -11,7 +11,7 @@ use std::f64::consts::PI;
 
 pub fn monitor() -> Monitor {
   Monitor { id: "C12",
-    rule: "polygons: 3..9 vertices on sorted bearings (gaps in [0.05, 0.95 pi]) around a centre at radius R (convex, inscribed in a small circle) or R x U(0.3,1) (star-shaped), either winding; R drawn per decade from 1e-10 rad to 0.79 rad, query depth matched so that R/cell is in [0.02, 40]; centres uniform, near meridians k.pi/4 (incl. lon ~ 0), near the transition latitude, 1 in 6 inside a polar cap astride lon = 0 or another seam meridian, 1 in 8 with a vertex exactly on a special point of the grid (centre / vertex of a cell of level 0..2), never within R + 0.02 rad of a pole; both exact_solution values. Oracles: no panic / abnormal exit, well formed, every vertex's cell covered, convex & full => 4 vertices + centre inside (half-space margin >= -1e-12), R < 0.3 => cell centres within r + 2 x the largest centre-to-vertex distance of the depth of EVERY containing cone tried (the generation circle and, per edge, a cone of radius < 0.3 centred up to 0.28 rad on the inner side of the edge, i.e. nearly the edge's half-space), Polygon::contains == half-space oracle for points with |margin| > 1e-12 (uniform on the sphere, within 1.5 R, and on the meridian of every vertex +- 0..3 ulps). Interior witnesses missed are information only. Non-trivial = polygon crossing lon = 0, a meridian k.pi/2 or the transition latitude, clockwise winding, R below one cell, or R < 1e-6 rad.",
+    rule: "polygons: 3..9 vertices on sorted bearings (gaps in [0.05, 0.95 pi]) around a centre at radius R (convex, inscribed in a small circle) or R x U(0.3,1) (star-shaped), either winding; R drawn per decade from 1e-10 rad to 0.79 rad, query depth matched so that R/cell is in [0.02, 40]; centres uniform, near meridians k.pi/4 (incl. lon ~ 0), near the transition latitude, 1 in 6 inside a polar cap astride lon = 0 or another seam meridian, 1 in 12 a longitude/latitude box (meridian edges), 1 in 8 with a vertex exactly on a special point of the grid (centre / vertex of a cell of level 0..2), never within R + 0.02 rad of a pole; both exact_solution values. Oracles: no panic / abnormal exit, well formed, every vertex's cell covered, convex & full => 4 vertices + centre inside (half-space margin >= -1e-12), R < 0.3 => cell centres within r + 2 x the largest centre-to-vertex distance of the depth of EVERY containing cone tried (the generation circle and, per edge, a cone of radius < 0.3 centred up to 0.28 rad on the inner side of the edge, i.e. nearly the edge's half-space), Polygon::contains == half-space oracle for points with |margin| > 1e-12 (uniform on the sphere, within 1.5 R, and on the meridian of every vertex +- 0..3 ulps). Interior witnesses missed are information only. Non-trivial = polygon crossing lon = 0, a meridian k.pi/2 or the transition latitude, clockwise winding, R below one cell, or R < 1e-6 rad.",
     assumptions: &["half-space oracle for convex polygons in a gnomonic chart computed from coordinate differences (refm::convex_margin_acc; relative accuracy ~1e-15 at every polygon size)", "Layer::hash (C01) locates vertices"],
     run, replay }
 }
@@ -33,7 +33,11 @@ pub fn gen_poly(rng: &mut Rng) -> Option<Case> {
     let fine: Vec<u8> = cands.iter().cloned().filter(|&d| rmax * nside(d) as f64 >= 8.0).collect(); if !fine.is_empty() && rng.below(4) != 0 { depth = *rng.pick(&fine); }
     lon = (if rng.coin() { 0.0 } else { rng.below(4) as f64 * PI / 2.0 }) + (rng.f() - 0.5) * 2.0 * rmax; let lo = trans_lat() + 0.01; let hi = PI / 2.0 - 0.03 - rmax; if hi <= lo { return None; } lat = (lo + (hi - lo) * rng.f()) * if rng.coin() { 1.0 } else { -1.0 }; }
   lon = lon.rem_euclid(TWO_PI);
-  if lat.abs() + rmax > PI / 2.0 - 0.02 { return None; }
+  // polygons next to a pole that do not reach it (one in 8): the circumscribed circle passes at g.R from the pole, g from 1e-4 to 1,
+  // sizes from 1e-9 rad up; elsewhere a margin of 0.02 rad is kept around the poles
+  let near_pole = rng.below(8) == 0;
+  if near_pole { let g = rng.log_uniform(1e-4, 1.0); lat = (PI / 2.0 - rmax * (1.0 + g)) * if rng.coin() { 1.0 } else { -1.0 }; if !(lat.abs() + rmax < PI / 2.0) || rmax > 0.75 { return None; } }
+  else if lat.abs() + rmax > PI / 2.0 - 0.02 { return None; }
   let nv = 3 + rng.below(7) as usize;
   let mut bear: Vec<f64> = (0..nv).map(|_| rng.f() * TWO_PI).collect();
   // one polygon in 10 has a vertex that is EXACTLY a special point of the grid (centre or vertex of a cell of level 0..2, as the crate
@@ -50,13 +54,23 @@ pub fn gen_poly(rng: &mut Rng) -> Option<Case> {
       let mut dl = sp.0 - lon; if dl.abs() > PI { dl = (dl + PI).rem_euclid(TWO_PI) - PI; }
       let east = sp.1.cos() * dl.sin(); let north = lat.cos() * sp.1.sin() - lat.sin() * sp.1.cos() * dl.cos();
       let th = north.atan2(east).rem_euclid(TWO_PI);
-      bear[0] = th; special = Some((sp, th));
+      // half of the time the vertex is the special point itself, otherwise a point 1e-15 .. 1e-6 rad away from it
+      let spv = if rng.coin() { sp } else { point_at(sp.0, sp.1, rng.log_uniform(1e-15, 1e-6).min(1e-3 * rmax), rng.f() * TWO_PI) };
+      bear[0] = th; special = Some((spv, th));
     }
   }
   bear.sort_by(|a, b| a.partial_cmp(b).unwrap());
   for i in 0..nv { let g = (bear[(i + 1) % nv] - bear[i]).rem_euclid(TWO_PI); if g > PI * 0.95 || g < 0.05 { return None; } }
   let mut vl = Vec::new(); let mut vb = Vec::new();
   let mut pts: Vec<(f64, f64)> = bear.iter().map(|&b| match special { Some((sp, th)) if th == b => (sp.0.rem_euclid(TWO_PI), sp.1), _ => point_at(lon, lat, if convex { rmax } else { rmax * (0.3 + 0.7 * rng.f()) }, b) }).collect();
+  // one polygon in 12 is a longitude / latitude box: two edges exactly along meridians (consecutive vertices with the same longitude),
+  // two edges between vertices of equal latitude
+  let mut convex = convex;
+  if rng.below(12) == 0 && special.is_none() && lat.abs() + 1.5 * rmax < PI / 2.0 {
+    let (w, h) = (rmax * rng.range(0.2, 0.7) / lat.cos().max(1e-3), rmax * rng.range(0.2, 0.7));
+    pts = vec![(lon - w, lat - h), (lon + w, lat - h), (lon + w, lat + h), (lon - w, lat + h)];
+    convex = true;
+  }
   let cw = rng.coin();
   if cw { pts.reverse(); }
   // vertices given with longitudes outside [0, 2pi) (one polygon in 12, each vertex independently)
@@ -80,6 +94,9 @@ fn run(ctx: &mut Ctx, extra: &mut BTreeMap<String, String>) {
 pub fn judge(ctx: &mut Ctx, c: &Case) {
   let depth = c.gu("depth") as u8; let convex = c.gb("convex"); let (lon, lat, rmax) = (c.gf("lon"), c.gf("lat"), c.gf("R"));
   let poly: Vec<(f64, f64)> = c.gfl("vl").into_iter().zip(c.gfl("vb").into_iter()).collect();
+  // radius of the circle centred on (lon, lat) that really contains the vertices as given (a vertex replaced by a nearby special point
+  // may be a hair outside the nominal circle)
+  let rmax = poly.iter().map(|v| dist(*v, (lon, lat))).fold(rmax, f64::max);
   let mut rng = Rng::new(c.gu("s"), 17);
   let fp = [depth as u64, lon.to_bits(), lat.to_bits(), rmax.to_bits(), poly.len() as u64, c.gu("s")];
   // classification
@@ -89,6 +106,7 @@ pub fn judge(ctx: &mut Ctx, c: &Case) {
   if crosses0 && poly.iter().any(|p| p.1.abs() > trans_lat()) { ctx.hard("polygon:edge-crosses-lon=0-inside-a-polar-cap", &fp); }
   let dl = { let m = lon.rem_euclid(PI / 2.0); m.min(PI / 2.0 - m) };
   let mut hard = false;
+  if lat.abs() + rmax > PI / 2.0 - 0.02 { ctx.hard("polygon:within-0.02rad-of-a-pole(not-reaching-it)", &fp); hard = true; }
   if crosses0 { ctx.hard("polygon:crosses-lon=0", &fp); hard = true; }
   if dl * lat.cos() <= rmax { ctx.hard("polygon:crosses-a-meridian-k.pi/2", &fp); hard = true; }
   if (lat.abs() - trans_lat()).abs() <= rmax { ctx.hard("polygon:crosses-transition-latitude", &fp); hard = true; }
